@@ -425,10 +425,54 @@ def decide_views(s, real_rows, hist, tables):
     states = {}
     hi = 0
     cur = {p: ("Unknown", None) for p in range(len(s.threads))}
+    # (c) an independent tracker of the table-driven channels (push/pop/set by the dumped tables, flush, kernel
+    #     in/out of CPU, the initial "progressing" of the idle channels): what each channel holds after each event
+    id2dir = {chr(m["id"]): m["dir"] for m in tables["models"]}
+    tab = {(x["model"], chr(x["c"]), chr(x["v"])): x for x in tables["table"]}
+    consts = {(c["model"], c["name"]): c["value"] for c in tables.get("consts", [])}
+    spec_of = {(c["model"], c["index"]): c for c in specs}
+    chanval = {}     # (thread pos, model dir, chan index) -> list (stack) or [value] (single); missing = nothing written
+    for pp in range(len(s.threads)):
+        for d in ("nosv", "nanos6"):
+            if (d, consts.get((d, "CH_IDLE"))) in spec_of:
+                chanval[(pp, d, consts[(d, "CH_IDLE")])] = [consts[(d, "ST_PROGRESSING")]]
+    evs = sorted(s.events, key=lambda e: e[1])
+    ei = 0
+    tracked_ok = True
+
+    def apply_event(e):
+        (pp, clk, mcv, pl) = e
+        d = id2dir.get(mcv[0])
+        if mcv in ("OF[", "OF]"):
+            chanval[(pp, "ovni", consts.get(("ovni", "CH_FLUSH"), 0))] = [consts.get(("ovni", "ST_FLUSHING"), 1)] if mcv == "OF[" else []
+            return
+        if mcv in ("KCO", "KCI") and ("kernel", consts.get(("kernel", "CH_CS"), 0)) in spec_of:
+            st = chanval.setdefault((pp, "kernel", consts[("kernel", "CH_CS")]), [])
+            if mcv == "KCO":
+                st.append(consts[("kernel", "ST_CSOUT")])
+            elif st:
+                st.pop()
+            return
+        x = tab.get((d, mcv[1], mcv[2]))
+        if x is None or (d, x["chan"]) not in spec_of:
+            return
+        sp_ = spec_of[(d, x["chan"])]
+        st = chanval.setdefault((pp, d, x["chan"]), [])
+        if x["action"] == "PUSH":
+            st.append(x["value"])
+        elif x["action"] == "POP":
+            if st:
+                st.pop()
+        elif x["action"] == "SET":
+            st[:] = [x["value"]]
+
     for t in times:
         while hi < len(hist) and hist[hi][0] - t0 <= t:
             cur = hist[hi][1]
             hi += 1
+        while ei < len(evs) and evs[ei][1] - t0 <= t:
+            apply_event(evs[ei])
+            ei += 1
         for sp in specs:
             ty = sp["type"]
             for p, (a, c) in cur.items():
@@ -436,6 +480,14 @@ def decide_views(s, real_rows, hist, tables):
                 got = timeline(real_rows.get((0, g[p] + 1, ty), []), t)
                 if not ok and got != 0:
                     return "thread row %d type %d shows %d at t=%d although the thread is %s (tracking mode %d)" % (g[p] + 1, ty, got, t, a, sp["track"])
+                if ok and sp["name"] in ("flush", "subsystem", "function", "idle", "context_switch", "thread_type") and not sp["model"] in ("nosv", "nanos6") or \
+                        (ok and sp["model"] in ("nosv", "nanos6") and sp["name"] in ("subsystem", "idle", "thread_type") and not any(
+                            e[2][0] in "V6" and e[2][1] in "TY" for e in s.events)):
+                    st_ = chanval.get((p, sp["model"], sp["index"]), [])
+                    want = st_[-1] if st_ else 0
+                    if got != want:
+                        return "thread row %d type %d (%s %s) shows %d at t=%d while the thread is %s; the channel holds %d" % (
+                            g[p] + 1, ty, sp["model"], sp["name"], got, t, a, want)
             for c in range(ncpu):
                 run = [p for p, (a, cc) in cur.items() if a == "Running" and cc == c]
                 got = timeline(real_rows.get((1, c + 1, ty), []), t)
